@@ -264,7 +264,11 @@ func replayFree(u *Universe, h History, dir string, seed int64, traced, queries 
 	res.OK = true
 	for i := range h {
 		switch h[i].A {
-		case "Crash", "Restart", "RestartCrash", "RemoveStepCrash":
+		case "Crash", "Restart", "RestartCrash":
+			if !traced || queries || faults > 0 {
+				return Result{OK: false, Err: "harness: free-running replay of a history with crashes"}
+			}
+		case "RemoveStepCrash":
 			return Result{OK: false, Err: "harness: free-running replay of a history with crashes"}
 		}
 	}
@@ -285,6 +289,7 @@ func replayFree(u *Universe, h History, dir string, seed int64, traced, queries 
 		if faults > 0 {
 			rec.faultEvery, rec.faultsLeft = 23+seed%40, int64(faults)
 		}
+		rec.cur = w.G
 		w.G.mu.Lock()
 		w.G.rec = rec
 		w.G.mu.Unlock()
@@ -425,6 +430,12 @@ func replayFree(u *Universe, h History, dir string, seed int64, traced, queries 
 			}
 			s = &c
 		}
+		if rec != nil && (s.A == "Crash" || s.A == "Restart" || s.A == "RestartCrash") {
+			if err := rec.crashStep(s); err != nil {
+				return Result{OK: false, Step: i, Action: s.A, Err: err.Error()}
+			}
+			continue
+		}
 		var err error
 		switch {
 		case rec == nil:
@@ -469,6 +480,12 @@ func replayFree(u *Universe, h History, dir string, seed int64, traced, queries 
 						ready = false
 					}
 				}
+			}
+			if ready && rec != nil {
+				// both goroutines are back at the top of their loops and nothing has been queued meanwhile
+				time.Sleep(10 * time.Millisecond)
+				nb2, nt2 := w.H.VerifQueued()
+				ready = rec.idle() && nb2 == 0 && nt2 == 0 && w.H.VerifTaskQueueLen() == 0
 			}
 			if ready {
 				break
